@@ -75,6 +75,14 @@ Bool22 == LET B1 == {Bn(op, a, b) : op \in LogicOps, a \in TinyBool, b \in TinyB
 CmpAtoms == {Own("x"), Own("y"), NumA("1")}
 Cmp11 == LET N1 == Num1(CmpAtoms) IN {Bn(op, a, b) : op \in EqOps \cup OrdOps, a \in N1, b \in N1}
 
+(* ---- boolean connectives over two comparisons of the same operands (complement / mirror rules) ---- *)
+CmpPairs == {<<Own("x"), Own("y")>>, <<Own("x"), NumA("1")>>, <<NumA("1"), Own("x")>>, <<Fld(VarR("@A"), "n"), Own("x")>>}
+CmpOps == EqOps \cup OrdOps
+CmpBool ==
+  {Bn(op, Bn(c1, pr[1], pr[2]), Bn(c2, pr[1], pr[2])) : op \in LogicOps \cup EqOps, c1 \in CmpOps, c2 \in CmpOps, pr \in CmpPairs}
+  \cup {Bn(op, Bn(c1, pr[1], pr[2]), Bn(c2, pr[2], pr[1])) : op \in {"and", "or", "iff"}, c1 \in OrdOps, c2 \in OrdOps, pr \in CmpPairs}
+  \cup {Bn(op, Bn(c1, pr[1], pr[2]), Un("not", Bn(c2, pr[1], pr[2]))) : op \in {"and", "or"}, c1 \in OrdOps, c2 \in OrdOps, pr \in {<<Own("x"), Own("y")>>}}
+
 (* ---- compound values and functions ---- *)
 NumArgs == {NumA("0"), NumA("1"), NumA("2"), Un("-", NumA("1")), NumA("1.5"), Own("x"),
             Bn("+", Own("x"), NumA("1")), Bn("-", NumA("3"), NumA("1"))}
@@ -127,6 +135,12 @@ BodiesK == {Bn(">", K, NumA("0")), Bn("=", K, Own("x")), Bn("<", K, Fld(VarR("@A
             Un("not", Bn("implies", Fld(VarR("@A"), "b"), Bn(">", K, NumA("0")))),
             Un("not", Bn("implies", Bn("<", K, Fld(VarR("@A"), "n")), Own("p"))),
             Bn("implies", Bn(">", K, NumA("0")), Bn(">", Fld(VarR("@A"), "n"), K)),
+            \* the bound variable used only as an array index in one conjunct
+            Bn("and", Bn(">", Idx(Own("ys"), K), NumA("0")), Bn("<", K, NumA("1"))),
+            Bn("and", Bn(">", Idx(Own("ys"), K), NumA("0")), Own("p")),
+            Bn("and", Fld(VarR("@A"), "b"), Bn(">", Idx(Own("ys"), K), NumA("0"))),
+            Un("not", Bn("or", Bn("<", Idx(Own("ys"), K), NumA("0")), Own("p"))),
+            Bn("<", Idx(Own("ys"), K), NumA("0")),
             \* bodies in which every occurrence of the variable can be folded away
             Bn("and", Own("p"), Bn("implies", Bn(">", K, NumA("0")), Bn(">", K, NumA("0")))),
             Bn(">", Idx(Own("ys"), NumA("0")), Bn("-", K, K)),
@@ -314,6 +328,7 @@ Members ==
     [] Family = "bool2"   -> Bool2
     [] Family = "num22"   -> Num22
     [] Family = "cmp11"   -> Cmp11
+    [] Family = "cmpbool" -> CmpBool
     [] Family = "bool22"  -> Bool22
     [] Family = "num1w"   -> Num1(NumAtomsW)
     [] Family = "bool1w"  -> Bool1(NumAtomsW, BoolAtomsW)
